@@ -188,22 +188,33 @@ def check(ax, case, rec):
         fc = fem.FieldContainer([vfield()]) if not c["mask"] or axi or spec["kind"] not in ("hexahedron", "quad") else fem.FieldsMixed(region, n=2)
         c01.set_state(fc, X, c, dim)
         pts = np.unique(rng.choice(len(X), size=min(4, len(X)), replace=False))
-        d = fc.fields[0].dim
+        apply_on = 0
+        if c["lseed"] % 3 == 0:
+            # a load on the second field of a two-field container (e.g. a ring source on a scalar field)
+            fc = fem.FieldContainer([vfield(), fem.Field(region, dim=1)])
+            c01.set_state(fc, X, c, dim)
+            apply_on = 1
+            rec.label("apply_on=1")
+        d = fc.fields[apply_on].dim
         vals = rng.uniform(-1, 1, (len(pts), d))
+        kw = {"apply_on": apply_on} if apply_on else {}
         if c["preload"]:
-            it = fem.PointLoad(fc, points=pts, values=rng.uniform(-1, 1, (len(pts), d)), axisymmetric=axi)
+            it = fem.PointLoad(fc, points=pts, values=rng.uniform(-1, 1, (len(pts), d)), axisymmetric=axi, **kw)
             it.assemble.vector(fc)
             it.update(vals)
             rec.label("updated-values")
         else:
-            it = fem.PointLoad(fc, points=pts, values=vals, axisymmetric=axi)
+            it = fem.PointLoad(fc, points=pts, values=vals, axisymmetric=axi, **kw)
         r = np.asarray(it.assemble.vector(fc).toarray()).ravel()
         ref = np.zeros((len(X), d))
         ref[pts] = vals * (2 * np.pi * X[pts, 1:2] if axi else 1.0)
+        off = int(sum(fc.fieldsizes[:apply_on]))
         n0 = ref.size
         rec.nontrivial = True
-        rec.close("pointload=values", float(np.abs(r[:n0].reshape(-1, d) - ref).max()), 1e-14)
-        rec.close("other-fields-zero", float(np.abs(r[n0:]).max()) if r.size > n0 else 0.0, 0.0)
+        rec.require("vector-length", r.size == sum(fc.fieldsizes), [r.size, int(sum(fc.fieldsizes))])
+        rec.close("pointload=values", float(np.abs(r[off : off + n0].reshape(-1, d) - ref).max()), 1e-14, {"apply_on": apply_on})
+        rest = np.concatenate([r[:off], r[off + n0 :]])
+        rec.close("other-fields-zero", float(np.abs(rest).max()) if rest.size else 0.0, 0.0)
         return
     if ax.startswith("pressure"):
         btmpl = {"hexahedron": "RegionHexahedronBoundary", "hexahedron20": "RegionQuadraticHexahedronBoundary", "hexahedron27": "RegionTriQuadraticHexahedronBoundary",
@@ -225,8 +236,19 @@ def check(ax, case, rec):
             rec.reject("det F < 0.3")
             return
         p = c["load"] + 2.5
-        it = fem.SolidBodyPressure(fc, pressure=p)
-        r = np.asarray(it.assemble.vector(fc).toarray()).ravel().reshape(-1, fb.dim)
+        if c["preload"]:
+            # the load lives on its own (undeformed) boundary container; the current state comes with the solid's container
+            # handed to assemble.vector(field)
+            fb0 = fem.FieldPlaneStrain(rb, dim=2) if kind == "planestrain" else (fem.FieldAxisymmetric(rb, dim=2) if axi else fem.Field(rb, dim=dim))
+            it = fem.SolidBodyPressure(fem.FieldContainer([fb0]), pressure=p)
+            it.assemble.vector()
+            fstate = fem.FieldContainer([vfield()])
+            fstate[0].values[...] = fb.values
+            r = np.asarray(it.assemble.vector(fstate).toarray()).ravel().reshape(-1, fb.dim)
+            rec.label("state-from-foreign-container")
+        else:
+            it = fem.SolidBodyPressure(fc, pressure=p)
+            r = np.asarray(it.assemble.vector(fc).toarray()).ravel().reshape(-1, fb.dim)
         # independent current area vectors: boundary region of the deformed mesh copy
         md = mesh.copy()
         md.update(points=X + fb.values[:, :dim])
